@@ -133,7 +133,10 @@ RunEvents(st, inp, evs, i) ==
 IsCompilerError(e) == e[1] = "python-compiler-error"
 InFile(inp, l) == l >= 1 /\ l <= inp.nlines
 
-ReportFails(out, inp, errs) ==
+(* ncaught = number of sub-runs whose Compile failed and was caught by eval_expr (a string         *)
+(* annotation / type comment whose text is not an expression): each is reported as ONE             *)
+(* python-compiler-error at the line of the annotation, inside a Result - the file itself compiles  *)
+ReportFails(out, inp, errs, ncaught) ==
   LET n == Len(errs)
       E == {errs[j] : j \in 1 .. n} IN
   (IF out = "Escaped" THEN {"escaped"} ELSE {})
@@ -144,13 +147,18 @@ ReportFails(out, inp, errs) ==
           THEN {"blamed-line"} ELSE {})
   \cup (IF inp.compiles /\ out \notin {"Result", "FoldError", "Skipped", "Escaped"}
           THEN {"compilable-not-analysed"} ELSE {})
-  \cup (IF inp.compiles /\ out = "Result" /\ \E e \in E : IsCompilerError(e)
+  \cup (IF inp.compiles /\ out = "Result"
+             /\ Cardinality({j \in 1 .. n : IsCompilerError(errs[j])}) > ncaught
           THEN {"compiler-error-on-compilable"} ELSE {})
   \cup (IF out = "FoldError" /\ ~(n = 1 /\ IsCompilerError(errs[1])) THEN {"fold-report"} ELSE {})
   \cup (IF out = "Skipped" /\ n # 0 THEN {"skip-report"} ELSE {})
   \cup (IF out # "Escaped"
              /\ \E e \in E : ~InFile(inp, e[2]) /\ ~(out = "CompileError" /\ inp.cline = 0)
           THEN {"line-outside-file"} ELSE {})
+
+(* in an accepted run every Compile event with status CompileError is a caught sub-run failure    *)
+(* (a failing main Compile ends the run as CompileError, where this number is not used)            *)
+NCaught(evs) == Cardinality({j \in DOMAIN evs : evs[j][1] = "Compile" /\ evs[j][2] = "CompileError"})
 
 (* the verdict on one recorded run: c = [inp, events, crashed, errs] *)
 Verdict(inp, evs, crashed, errs) ==
@@ -161,7 +169,7 @@ Verdict(inp, evs, crashed, errs) ==
              /\ evs[r.stuck][1] \in {"Directors", "Compile"} /\ Why(evs[r.stuck][2]) = "syntax"
           THEN {"compiler-error-on-compilable"} ELSE {})   \* the main Directors/Compile stage rejects a text CPython compiles
   \cup (IF r.stuck = 0 /\ ~crashed /\ r.st.phase # "end" THEN {"stage-order"} ELSE {})
-  \cup (IF r.stuck = 0 \/ crashed THEN ReportFails(out, inp, errs) ELSE {})
+  \cup (IF r.stuck = 0 \/ crashed THEN ReportFails(out, inp, errs, NCaught(evs)) ELSE {})
 
 (* ------------------------------------------------------------------------------------------ *)
 (* Spec-planned input families (strengthening): WHICH texts are analysed is decided here, the   *)
@@ -463,10 +471,10 @@ SliceOf(p, n) == (16 * Idx(PlaceSeq, p.place) + 2 * Idx(CharSeq, p.ch) + B2N(p.e
                   + 5 * Idx(PrecondSeq, p.pre) + 7 * Idx(TailSeq, p.tail) + 11 * Idx(RegionSeq, p.region)) % n
 
 (* attribution of a known defect (computed from the oracle side only: anntrail = the lines on which  *)
-(* CPython's ast sees a bare annotation inside a function followed by more code, or holding a `#`     *)
-(* inside the annotation): pytype appends ` = ...` to the END of such a line                          *)
+(* CPython's ast sees a bare annotation inside a function followed by more code on the same line):   *)
+(* pytype appends ` = ...` to the END of such a line; the one compiler error is at that very line     *)
 Attribution(fails, anntrail, errs) ==
-  IF "compiler-error-on-compilable" \in fails /\ Len(errs) = 1
+  IF ("compiler-error-on-compilable" \in fails \/ "blamed-line" \in fails) /\ Len(errs) = 1
      /\ \E j \in DOMAIN anntrail : anntrail[j] = errs[1][2]
   THEN "bare-annotation-line-with-trailing-code" ELSE ""
 
@@ -592,6 +600,7 @@ SubStage ==
        /\ hist' = Append(hist, <<ev[1], ev[2], "sub">>)
   /\ UNCHANGED <<inp, errs, muts, plan>>
 
+Ev2(h) == [j \in DOMAIN h |-> <<h[j][1], h[j][2]>>]
 (* the report the code attaches to a terminal outcome (errorlog) *)
 Report ==
   /\ st.phase = "end" /\ errs = <<>>
@@ -603,6 +612,8 @@ Report ==
         /\ \E l \in 1 .. inp.nlines : errs' = << <<"python-compiler-error", l>> >>
      \/ /\ st.out = "Result"
         /\ \E l \in 1 .. inp.nlines : errs' = << <<"attribute-error", l>> >>
+     \/ /\ st.out = "Result" /\ NCaught(Ev2(hist)) > 0       \* the annotation text that did not compile
+        /\ \E l \in 1 .. inp.nlines : errs' = << <<"python-compiler-error", l>> >>
   /\ st' = [st EXCEPT !.phase = "reported"]
   /\ UNCHANGED <<inp, muts, hist, plan>>
 
@@ -633,7 +644,6 @@ ASSUME Export => PrintT(<<"CASE", ToJson([catalogue |-> ErrorClasses, callclasse
 (* C15 on the machine *)
 Terminal == st.phase = "reported"
 NeverEscapes == st.out # "Escaped"
-Ev2(h) == [j \in DOMAIN h |-> <<h[j][1], h[j][2]>>]
 Accepts == Terminal => Verdict(inp, Ev2(hist), FALSE, errs) = {}
 NotCompilable == (Terminal /\ ~inp.compiles /\ st.out # "Skipped") =>
                    /\ st.out = "CompileError" /\ Len(errs) = 1 /\ errs[1][1] = "python-compiler-error"
